@@ -1,47 +1,62 @@
 #!/usr/bin/env python3
-"""Run every seeded change through its property's quick check (apply to /repo, check, undo) and print
-the markdown table of DESIGN.md section 7.  Usage: bin/seedtable.py [ids...]   (needs a clean /repo)"""
+"""seedtable.py [-j N] <seeded/ID>... : run bin/seedwt.sh on each seeded change (N lanes side by side), record the
+outcome in seeded/results.json and print the rows of DESIGN.md section 7.  Nothing here is evidence for a property:
+it records which obligations of the registered quick check report each seeded change."""
 import json, os, re, subprocess, sys, time
+from concurrent.futures import ThreadPoolExecutor
+
 HERE = os.path.dirname(os.path.dirname(os.path.abspath(__file__)))
-ids = sys.argv[1:] or sorted(os.listdir(os.path.join(HERE, 'seeded')))
-rows = []
-for i in ids:
-    d = os.path.join(HERE, 'seeded', i)
-    prop = i[:3]
-    if subprocess.run(['git', '-C', '/repo', 'diff', '--quiet']).returncode != 0:
-        sys.exit('/repo is dirty')
-    if subprocess.run(['git', '-C', '/repo', 'apply', os.path.join(d, 'patch.diff')]).returncode != 0:
-        rows.append((i, 'patch does not apply', '', '')); continue
+RES = os.path.join(HERE, 'seeded', 'results.json')
+
+
+def run(d):
+    d = os.path.abspath(d)
+    sid = os.path.basename(d)
     t0 = time.time()
+    p = subprocess.run([os.path.join(HERE, 'bin', 'seedwt.sh'), d], capture_output=True, text=True,
+                       env=dict(os.environ, SEEDWT_FULL='1'))
+    out = p.stdout + p.stderr
+    m = re.search(r'exit=(\d+) violations=(\d+) (\d+)s', out)
+    obls = re.findall(r'^VIOLATION property=\S+ obligation=(\S+) key=(\S+)(.*)$', out, re.M)
+    kinds, names = [], []
+    for ob, key, rest in obls:
+        parts = ob.split('.', 2)
+        kind = parts[1] if len(parts) > 2 else '?'
+        name = parts[2] if len(parts) > 2 else ob
+        if name.startswith('contract-twin.'):
+            kind = 'twin'
+            name = 'twin:' + name.split(':')[-1]
+        elif kind == 'P':
+            name = 'P:' + name.split(':')[-1]
+        if kind not in kinds:
+            kinds.append(kind)
+        if name not in names:
+            names.append(name)
+    files = []
     try:
-        p = subprocess.run([os.path.join(HERE, 'bin', 'vcheck'), prop, '--tier', 'quick'], capture_output=True, text=True)
-    finally:
-        subprocess.run(['git', '-C', '/repo', 'checkout', '--', '.'])
-    obs = []
-    for line in p.stdout.splitlines():
-        m = re.match(r'VIOLATION property=\S+ replay=\S+ obligation=(\S+) key=(\S+)( no-failing-input-found)?', line)
-        if m:
-            obs.append((m.group(1), m.group(2), bool(m.group(3))))
-    kinds = []
-    names = []
-    for ob, key, nf in obs:
-        k = 'twin' if '.B.contract-twin.' in ob else ob.split('.')[1]
-        if k not in kinds:
-            kinds.append(k)
-        short = ob.split('.', 2)[2] if k != 'twin' else 'twin:' + ob.rsplit(':', 1)[-1]
-        short = short.replace('pydbml.', '')
-        if k == 'P':
-            short = 'P:' + ob.split(':')[-1]
-        if short not in names:
-            names.append(short)
-    files = sorted(set(re.findall(r'^\+\+\+ b/(\S+)', open(os.path.join(d, 'patch.diff')).read(), re.M)))
-    rows.append((i, ', '.join(f.replace('pydbml/', '') for f in files), f'exit {p.returncode}', '/'.join(kinds) or '—',
-                 '; '.join(names[:4]) + (' …' if len(names) > 4 else ''), f'{time.time() - t0:.0f}s'))
-    print(rows[-1], file=sys.stderr, flush=True)
-print('| change | touches | result | caught by | obligations (first four) | time |')
-print('|---|---|---|---|---|---|')
-for r in rows:
-    print('| ' + ' | '.join(r) + ' |')
-missed = [r[0] for r in rows if r[2] != 'exit 1']
-print()
-print(f'{len(rows) - len(missed)} of {len(rows)} detected.' + (f' Missed: {missed}' if missed else ''))
+        files = json.load(open(os.path.join(d, 'meta.json'))).get('files', [])
+    except Exception:
+        pass
+    return sid, {'exit': int(m.group(1)) if m else None, 'violations': int(m.group(2)) if m else None,
+                 'seconds': int(m.group(3)) if m else int(time.time() - t0), 'caught_by': kinds,
+                 'obligations': names, 'files': files, 'raw_tail': out[-400:] if not m else ''}
+
+
+def main():
+    args = sys.argv[1:]
+    j = 3
+    if args and args[0] == '-j':
+        j = int(args[1]); args = args[2:]
+    res = json.load(open(RES)) if os.path.exists(RES) else {}
+    with ThreadPoolExecutor(j) as ex:
+        for sid, r in ex.map(run, args):
+            res[sid] = r
+            json.dump(res, open(RES, 'w'), indent=1, sort_keys=True)
+            order = {'P': 0, 'twin': 1, 'S': 2, 'B': 3}
+            kinds = '/'.join(sorted(r['caught_by'], key=lambda k: order.get(k, 9))) or '—'
+            print(f"| {sid} | {', '.join(f.replace('pydbml/', '') for f in r['files'])} | exit {r['exit']} | {kinds} | "
+                  f"{'; '.join(r['obligations'][:4])}{' …' if len(r['obligations']) > 4 else ''} | {r['seconds']}s |", flush=True)
+
+
+if __name__ == '__main__':
+    main()
